@@ -46,6 +46,24 @@ def table_obligations() -> core.Result:
         res.obs.append(_tb(f"C14/tb/init-signature/{cls}", ok,
                            f"{cls}.__init__{sig}; specification order {names} then coord=None", f"{cls}.__init__",
                            rep + f"print('REPRODUCED' if list(inspect.signature(k.__init__).parameters)[1:] != {want_ps!r} else 'NOT-REPRODUCED')\n"))
+        # iteration protocol: __iter__ returns an ITERATOR (a generator), for absent and for present children alike -- the SMT
+        # contract speaks about the sequence of values it yields, this about the kind of object
+        bad_it = None
+        for present in (False, True):
+            kw = {}
+            for f, kind in fields:
+                kw[f] = (f"<{f}>" if kind == "attr" else ((c_ast.ID("k") if present else None) if kind == "child"
+                                                           else ([c_ast.ID("k0"), c_ast.ID("k1")] if present else None)))
+            try:
+                node = k(**kw)
+                got = list(iter(node))
+                want = [c for _, c in node.children()]
+                if len(got) != len(want) or any(a is not b for a, b in zip(got, want)):
+                    bad_it = f"iteration yields {got!r}, children() reports {want!r}"
+            except Exception as e:  # noqa
+                bad_it = f"iter({cls}(...)) with children {'present' if present else 'absent'}: {type(e).__name__}: {e}"
+        res.obs.append(_tb(f"C14/tb/iter-protocol/{cls}", bad_it is None, bad_it or f"iter({cls}) is an iterator over exactly the children", f"{cls}.__iter__",
+                           REPLAY % (cls, "__iter__")))
         # methods are defined by the class itself (not inherited / monkey-patched)
         own = all(m in vars(k) for m in ("__init__", "children", "__iter__"))
         res.obs.append(_tb(f"C14/tb/own-methods/{cls}", own, f"{cls} defines __init__/children/__iter__ itself: {own}", cls))
